@@ -8,7 +8,7 @@ EXPLANATION = ('Structural necessary conditions of keep-alive: the next-ping tim
                're-armed when a PINGREQ is queued, extended only by max(next, write time + K) on successful completion, and cleared at close/reset; '
                'a PINGREQ is queued at the front only when none is outstanding and the ping time has come; the ping deadline is '
                'min(configured timeout, K/2) with the halving done on a Duration (precision-loss lint: no integer division may flow into '
-               'Duration::from_secs); PINGRESP clears the deadline and is an error when none is outstanding; the deadline comparison fails the connection.')
+               'Duration::from_secs); PINGRESP clears the deadline and is an error when none is outstanding; the deadline comparison fails the connection. Added in round 2: the PINGRESP deadline is part of the reported next service time on every path, and the keep-alive service runs first in every Connected service call.')
 ASSUMPTIONS = ['not decided: the timing inequalities for all K, delays and interleavings (only the sites that arm, compare and clear the timers)']
 P = 'src/protocol.rs'
 PS = 'protocol::ProtocolState'
@@ -95,16 +95,16 @@ def run(ctx):
            'after a PINGREQ the next ping is scheduled K seconds later (K > 0)', 'ping|reschedule', loc=ka.loc())
     pr = ctx.fn('ProtocolState::handle_pingresp')
     cl = armed.get(('ping_timeout_timepoint', 'handle_pingresp'), [])
-    ctx.ob(len(cl) == 1 and show(cl[0].rv) == 'Option::None{}' and guarded_any(pr, cl[0].bb, [r'^Option::is_some\(self\.ping_timeout_timepoint\)$']), 'PINGRESP clears the outstanding deadline', 'pingresp|clear', loc=pr.loc())
+    ctx.ob(len(cl) == 1 and show(cl[0].rv) == 'Option::None{}' and guarded_any(pr, cl[0].bb, [r'^self\.ping_timeout_timepoint is Some$']), 'PINGRESP clears the outstanding deadline', 'pingresp|clear', loc=pr.loc())
     errb = prims.err_blocks(pr)
-    ctx.ob(any(guarded_any(pr, b, [r'^!Option::is_some\(self\.ping_timeout_timepoint\)$']) for b in errb), 'a PINGRESP without an outstanding PINGREQ is a protocol error', 'pingresp|unexpected', loc=pr.loc())
+    ctx.ob(any(guarded_any(pr, b, [r'^self\.ping_timeout_timepoint is None$']) for b in errb), 'a PINGRESP without an outstanding PINGREQ is a protocol error', 'pingresp|unexpected', loc=pr.loc())
     ex = ctx.fn('ProtocolState::apply_ping_extension_on_operation_success')
     ew = armed.get(('next_ping_timepoint', 'apply_ping_extension_on_operation_success'), [])
     ok = len(ew) == 1
     if ok:
         rv = show(ew[0].rv)
         ok = re.match(r'^Option::Some\{0: Add::add\(extension_base_option@Some\.0, ' + KSECS + r'\)\}$', rv) is not None and \
-            guarded_any(ex, ew[0].bb, [r'^\(Option::unwrap\(self\.next_ping_timepoint\) < Add::add\(extension_base_option@Some\.0, ']) and guarded_any(ex, ew[0].bb, [r'^Option::is_some\(self\.next_ping_timepoint\)$'])
+            guarded_any(ex, ew[0].bb, [r'^\(Option::unwrap\(self\.next_ping_timepoint\) < Add::add\(extension_base_option@Some\.0, ']) and guarded_any(ex, ew[0].bb, [r'^self\.next_ping_timepoint is Some$'])
     ctx.ob(ok, 'extension: next ping := base + K only when that is later than the current next ping (and a ping is scheduled at all)', 'extend|max', loc=ex.loc())
     callers = F.callers().get(ex.key, [])
     ctx.ob(len(callers) == 1 and callers[0][0].path.endswith('complete_operation_as_success'), 'the extension is applied in the success completion point only', 'extend|caller', loc=ex.loc())
